@@ -1077,6 +1077,7 @@ func c02(p *core.Program, r *core.Report) {
 	// ---- rule 6: Push / SetCoords copy; only Swap and GeometryCollection.Push share storage, by design
 	const r6 = "parts-copied-not-shared"
 	r.Rule(r6, "MODREF capture query: after Push (Polygon, MultiPoint, MultiLineString, MultiPolygon) and SetCoords (all 7 types) no memory reachable from the receiver holds a reference to memory supplied through another argument - the part's coordinates and offsets are copied, so later pushes into or reversals of either geometry cannot show through the other; GeometryCollection.Push, which stores the pushed pointers by design, is the positive control that the query sees captures", 12)
+	partEndsNotSharedRule(p, r, "part-ends-not-shared", m)
 	m = modref(p, r)
 	for _, e := range []struct{ tn, meth string }{
 		{"Polygon", "Push"}, {"MultiPoint", "Push"}, {"MultiLineString", "Push"}, {"MultiPolygon", "Push"},
